@@ -493,3 +493,28 @@ fn enc_fs_first() {
     }));
     report(r);
 }
+
+/// any inner length, any seek: no panic (the stream content is irrelevant: bytes are zeros and the
+/// tag check fails, which is an ordinary error)
+#[test]
+fn enc_seek_total() {
+    let n = v_u64("n", 16).min(CAP);
+    let which = v_u64("which", 0) % 3;
+    let off = v_u64("off", 0);
+    let r = catch_unwind(AssertUnwindSafe(|| -> Option<String> {
+        let mut l = EncryptionLayerInternal::new(Box::new(Cursor::new(vec![0u8; n as usize])), &reader_cfg(false)).unwrap();
+        l.inner.set_position(v_u64("ipos", 0).min(n));
+        l.current_chunk_number = v_u64("ccn", 0) as u32;
+        let cl = v_u64("cl", 0).min(CH) as usize;
+        l.chunk_cache = Cursor::new(vec![0u8; cl]);
+        l.chunk_cache.set_position(v_u64("cp", 0));
+        let sf = match which {
+            0 => SeekFrom::Start(off),
+            1 => SeekFrom::Current(off as i64),
+            _ => SeekFrom::End(off as i64),
+        };
+        let _ = l.seek(sf);
+        None
+    }));
+    report(r);
+}
